@@ -1,12 +1,23 @@
 (* C11 — outputs are fully determined by inputs: no stale data, no stray writes.  Pinned statements only. *)
-From PV Require Import Base.MachineInt Model.Znx Model.Limbs Model.Flat Model.C08Run Proofs.C11Frame Proofs.C11Ops.
+From PV Require Import Base.MachineInt Model.Znx Model.Limbs Model.Flat Model.Ring Model.DftAbs
+  Model.C07Run Model.C09Run Model.C08Run Model.C11Run
+  Proofs.C09Size
+  Proofs.C11Frame Proofs.C11Ops Proofs.C11Read Proofs.C11Oracle Proofs.C11Ring Proofs.C11Coeff Proofs.C11Indep Proofs.C11Dft Proofs.C11Sound.
 From Coq Require Import Arith PeanoNat.
+Open Scope nat_scope.
+
+(* NOTE on names: C07Run / C08Run / C09Run each define p, v, np, ex: they are always written qualified below.
+   `in_col` is Proofs.C11Frame.in_col; the executable model's copy is C11Run.in_col (same function, C11_in_col_same). *)
+
+(* =====================================================================================================
+   A. FRAME: no word outside limbs [0,size) of the selected output column is modified
+   ===================================================================================================== *)
 
 (* writing the limbs of one column changes no word outside limbs [0,size) of that column, whatever the data *)
 Theorem C11_write_col_frame : forall n cols col size data (limbs : list (list Z)),
   0 < n -> col < cols -> length limbs <= size -> n * cols * size <= length data ->
   length (write_col n cols data col limbs) = length data /\
-  forall idx d, in_col n cols size col idx = false ->
+  forall idx d, C11Frame.in_col n cols size col idx = false ->
     nth idx (write_col n cols data col limbs) d = nth idx data d.
 Proof. exact write_col_frame. Qed.
 Print Assumptions C11_write_col_frame.
@@ -15,22 +26,377 @@ Print Assumptions C11_write_col_frame.
 Theorem C11_col_op_frame : forall f rs as_ res a res',
   0 < s_n rs -> col_op f rs as_ res a = Some res' ->
   length res' = length res /\
-  forall idx d, in_col (s_n rs) (s_cols rs) (s_size rs) (s_col rs) idx = false -> nth idx res' d = nth idx res d.
+  forall idx d, C11Frame.in_col (s_n rs) (s_cols rs) (s_size rs) (s_col rs) idx = false -> nth idx res' d = nth idx res d.
 Proof. exact col_op_frame. Qed.
 Print Assumptions C11_col_op_frame.
 
 (* all modelled vec_znx normalise / lsh / rsh operations and the big-accumulator normalisers with their fused forms
    (opcodes 8101..8110, 8201..8204), any shape, any contents *)
 Theorem C11_c08_vec_frame : forall code ps vs res',
-  In code c08_flat_codes ->
+  In code [8101; 8102; 8103; 8104; 8105; 8106; 8107; 8108; 8109; 8110; 8201; 8202; 8203; 8204]%Z ->
   0 < s_n (rshape ps) ->
   run_c08_vec code ps vs = Some [res'] ->
-  length res' = length (v vs 0) /\
+  length res' = length (C08Run.v vs 0) /\
   forall idx d,
-    in_col (s_n (rshape ps)) (s_cols (rshape ps)) (s_size (rshape ps)) (s_col (rshape ps)) idx = false ->
-    nth idx res' d = nth idx (v vs 0) d.
+    C11Frame.in_col (s_n (rshape ps)) (s_cols (rshape ps)) (s_size (rshape ps)) (s_col (rshape ps)) idx = false ->
+    nth idx res' d = nth idx (C08Run.v vs 0) d.
 Proof. exact c08_vec_frame. Qed.
 Print Assumptions C11_c08_vec_frame.
 
-Example C11_in_col_example : in_col 4 3 2 1 (4 * (1 * 3 + 1) + 2) = true /\ in_col 4 3 2 1 (4 * (2 * 3 + 1)) = false /\ in_col 4 3 2 1 3 = false.
+(* every ring operation of run_c09 with one destination (all opcodes except split_ring 9021):
+   add_into, add_assign, sub, sub_assign, sub_negate_assign, negate, negate_assign, add_scalar_into, add_scalar_assign,
+   sub_scalar, sub_scalar_assign, copy, zero, rotate, rotate_assign, mul_xp_minus_one (+assign), automorphism (+assign),
+   switch_ring, merge_rings *)
+Theorem C11_c09_frame : forall code ps vs res',
+  In code [9001; 9002; 9003; 9004; 9005; 9006; 9007; 9008; 9009; 9010; 9011; 9012; 9013; 9014; 9015; 9016; 9017;
+           9018; 9019; 9020; 9022]%Z ->
+  0 < s_n (shp ps 0) ->
+  run_c09 code ps vs = Some [res'] ->
+  length res' = length (C09Run.v vs 0) /\
+  forall idx d,
+    C11Frame.in_col (s_n (shp ps 0)) (s_cols (shp ps 0)) (s_size (shp ps 0)) (s_col (shp ps 0)) idx = false ->
+    nth idx res' d = nth idx (C09Run.v vs 0) d.
+Proof. exact c09_frame. Qed.
+Print Assumptions C11_c09_frame.
+
+(* split_ring (9021), vs = a :: parts: each returned part satisfies the frame statement w.r.t. its own input buffer
+   (the model does not validate the parts' shapes for this opcode, hence the shape_ok hypothesis per part) *)
+Theorem C11_c09_split_frame : forall ps a parts outs,
+  0 < s_n (shp ps 0) ->
+  run_c09 9021 ps (a :: parts) = Some outs ->
+  length outs = length parts /\
+  forall i, i < length parts -> shape_ok (shp ps 0) (nth i parts []) = true ->
+    length (nth i outs []) = length (nth i parts []) /\
+    forall idx d,
+      C11Frame.in_col (s_n (shp ps 0)) (s_cols (shp ps 0)) (s_size (shp ps 0)) (s_col (shp ps 0)) idx = false ->
+      nth idx (nth i outs []) d = nth idx (nth i parts []) d.
+Proof. exact c09_split_frame. Qed.
+Print Assumptions C11_c09_split_frame.
+
+(* =====================================================================================================
+   B. READ-BACK: every limb of the selected column is written
+   ===================================================================================================== *)
+
+Theorem C11_write_col_read : forall n cols size col data (limbs : list (list Z)),
+  col < cols -> length limbs = size -> Forall (fun l => length l = n) limbs ->
+  n * cols * size <= length data ->
+  col_limbs n cols size (write_col n cols data col limbs) col = limbs.
+Proof. exact write_col_read. Qed.
+Print Assumptions C11_write_col_read.
+
+(* without the hypothesis on the limb lengths: each limb is stored cut / zero-extended to n words *)
+Theorem C11_write_col_read_pad : forall n cols size col data (limbs : list (list Z)),
+  col < cols -> length limbs = size -> n * cols * size <= length data ->
+  col_limbs n cols size (write_col n cols data col limbs) col = map (fun l => firstn n (l ++ zeros n)) limbs.
+Proof. exact write_col_read_pad. Qed.
+Print Assumptions C11_write_col_read_pad.
+
+(* the other columns read back as before *)
+Theorem C11_write_col_other_col : forall n cols size col col' data (limbs : list (list Z)) k,
+  0 < n -> col < cols -> col' < cols -> col' <> col -> length limbs <= size -> n * cols * size <= length data ->
+  n * cols * k <= length data ->
+  col_limbs n cols k (write_col n cols data col limbs) col' = col_limbs n cols k data col'.
+Proof. exact write_col_other_col. Qed.
+Print Assumptions C11_write_col_other_col.
+
+(* col_op: the selected column of the result IS the lifted per-coefficient function of (selected input column,
+   prior selected column) *)
+Theorem C11_col_op_column : forall f rs as_ res a res',
+  col_op f rs as_ res a = Some res' ->
+  lift_coeff f (s_n rs) (s_size rs)
+    (col_limbs (s_n as_) (s_cols as_) (s_size as_) a (s_col as_))
+    (col_limbs (s_n rs) (s_cols rs) (s_size rs) res (s_col rs))
+  = Some (col_limbs (s_n rs) (s_cols rs) (s_size rs) res' (s_col rs)).
+Proof. exact col_op_column_exact. Qed.
+Print Assumptions C11_col_op_column.
+
+(* C09: run_c09 writes the column function c09_col (of the prior selected column and the other buffers) *)
+Theorem C11_c09_column : forall code ps res rest res',
+  In code c09_single_codes ->
+  run_c09 code ps (res :: rest) = Some [res'] ->
+  exists l, c09_col code ps (getcol (shp ps 0) res) rest = Some l /\ length l = s_size (shp ps 0) /\
+            getcol (shp ps 0) res' = map (fun x => firstn (s_n (shp ps 0)) (x ++ zeros (s_n (shp ps 0)))) l.
+Proof. exact c09_column. Qed.
+Print Assumptions C11_c09_column.
+
+(* =====================================================================================================
+   C. INDEPENDENCE of the prior contents of the destination
+   ===================================================================================================== *)
+
+(* per coefficient, any word width / radix / offset / input: the overwriting kernels see only the number of limbs *)
+Theorem C11_normalize_indep : forall w rb ab off a r0 r1,
+  length r0 = length r1 -> normalize w rb ab off a r0 = normalize w rb ab off a r1.
+Proof. exact normalize_indep. Qed.
+Print Assumptions C11_normalize_indep.
+Theorem C11_lsh_ov_indep : forall w b k a r0 r1,
+  length r0 = length r1 -> lsh w true b k a r0 = lsh w true b k a r1.
+Proof. exact lsh_ov_indep. Qed.
+Print Assumptions C11_lsh_ov_indep.
+Theorem C11_rsh_ov_indep : forall w b k a r0 r1,
+  length r0 = length r1 -> rsh w true b k a r0 = rsh w true b k a r1.
+Proof. exact rsh_ov_indep. Qed.
+Print Assumptions C11_rsh_ov_indep.
+
+(* C08 overwriting operations: ANY two destination buffers (arbitrary contents everywhere), same other inputs *)
+Theorem C11_c08_indep_overwrite : forall code ps res1 res2 rest res1' res2',
+  In code [8101; 8104; 8108; 8201; 8204]%Z ->
+  run_c08_vec code ps (res1 :: rest) = Some [res1'] ->
+  run_c08_vec code ps (res2 :: rest) = Some [res2'] ->
+  col_limbs (s_n (rshape ps)) (s_cols (rshape ps)) (s_size (rshape ps)) res1' (s_col (rshape ps)) =
+  col_limbs (s_n (rshape ps)) (s_cols (rshape ps)) (s_size (rshape ps)) res2' (s_col (rshape ps)).
+Proof. exact c08_indep_overwrite. Qed.
+Print Assumptions C11_c08_indep_overwrite.
+
+(* C08, every form (in particular the accumulate / in-place forms 8102 8103 8105 8106 8107 8109 8110 8202 8203):
+   destination buffers that agree on the active limbs of the selected column and differ arbitrarily elsewhere *)
+Theorem C11_c08_indep_agree : forall code ps res1 res2 rest res1' res2',
+  In code [8101; 8102; 8103; 8104; 8105; 8106; 8107; 8108; 8109; 8110; 8201; 8202; 8203; 8204]%Z ->
+  col_limbs (s_n (rshape ps)) (s_cols (rshape ps)) (s_size (rshape ps)) res1 (s_col (rshape ps)) =
+  col_limbs (s_n (rshape ps)) (s_cols (rshape ps)) (s_size (rshape ps)) res2 (s_col (rshape ps)) ->
+  run_c08_vec code ps (res1 :: rest) = Some [res1'] ->
+  run_c08_vec code ps (res2 :: rest) = Some [res2'] ->
+  col_limbs (s_n (rshape ps)) (s_cols (rshape ps)) (s_size (rshape ps)) res1' (s_col (rshape ps)) =
+  col_limbs (s_n (rshape ps)) (s_cols (rshape ps)) (s_size (rshape ps)) res2' (s_col (rshape ps)).
+Proof. exact c08_indep_agree. Qed.
+Print Assumptions C11_c08_indep_agree.
+
+(* C09 overwriting operations: add_into, sub, negate, add_scalar_into, sub_scalar, copy, zero, rotate,
+   mul_xp_minus_one, switch_ring, merge_rings *)
+Theorem C11_c09_indep_overwrite : forall code ps res1 res2 rest res1' res2',
+  In code [9001; 9003; 9006; 9008; 9010; 9012; 9013; 9014; 9016; 9020; 9022]%Z ->
+  run_c09 code ps (res1 :: rest) = Some [res1'] ->
+  run_c09 code ps (res2 :: rest) = Some [res2'] ->
+  getcol (shp ps 0) res1' = getcol (shp ps 0) res2'.
+Proof. exact c09_indep_overwrite. Qed.
+Print Assumptions C11_c09_indep_overwrite.
+
+(* automorphism: odd Galois element, n a power of two (C09's hypotheses), source degree = destination degree *)
+Theorem C11_c09_indep_automorphism : forall ps m res1 res2 rest res1' res2',
+  (0 <= m)%Z -> Z.of_nat (s_n (shp ps 0)) = (2 ^ m)%Z -> Z.odd (C09Run.ex ps 0) = true ->
+  s_n (shp ps 1) = s_n (shp ps 0) ->
+  run_c09 9018 ps (res1 :: rest) = Some [res1'] ->
+  run_c09 9018 ps (res2 :: rest) = Some [res2'] ->
+  getcol (shp ps 0) res1' = getcol (shp ps 0) res2'.
+Proof. exact c09_indep_automorphism. Qed.
+Print Assumptions C11_c09_indep_automorphism.
+
+(* C09, every single-destination form (in particular the in-place forms 9002 9004 9005 9007 9009 9011 9015 9017 9019):
+   destination buffers that agree on the active limbs of the selected column *)
+Theorem C11_c09_indep_agree : forall code ps res1 res2 rest res1' res2',
+  In code [9001; 9002; 9003; 9004; 9005; 9006; 9007; 9008; 9009; 9010; 9011; 9012; 9013; 9014; 9015; 9016; 9017;
+           9018; 9019; 9020; 9022]%Z ->
+  getcol (shp ps 0) res1 = getcol (shp ps 0) res2 ->
+  run_c09 code ps (res1 :: rest) = Some [res1'] ->
+  run_c09 code ps (res2 :: rest) = Some [res2'] ->
+  getcol (shp ps 0) res1' = getcol (shp ps 0) res2'.
+Proof. exact c09_indep_agree. Qed.
+Print Assumptions C11_c09_indep_agree.
+
+(* the even-element automorphism does depend on the prior destination (C09_ex_automorphism_even_depends_on_r0):
+   the restriction to odd elements above is necessary *)
+
+(* =====================================================================================================
+   D. DFT-domain operations (run_c07 returns the selected output column)
+   ===================================================================================================== *)
+
+(* the output is a function of the selected input columns (c07_sel), sizes and parameters *)
+Theorem C11_dft_frame : forall code ps vs1 vs2,
+  In code [7001; 7002; 7003; 7004; 7005; 7006; 7007; 7008; 7009; 7010; 7011; 7012]%Z ->
+  c07_sel code ps vs1 = c07_sel code ps vs2 ->
+  run_c07 code ps vs1 = run_c07 code ps vs2.
+Proof. exact c07_depends. Qed.
+Print Assumptions C11_dft_frame.
+
+(* a-operand: two buffers that agree on the selected column acol (limbs < asize) give equal outputs *)
+Theorem C11_dft_frame_a : forall code ps a1 a2 rest,
+  In code [7001; 7002; 7003; 7004; 7005; 7006; 7007; 7008; 7009]%Z ->
+  col_limbs (C07Run.np ps 1) (C07Run.np ps 5) (C07Run.np ps 6) a1 (C07Run.np ps 7) =
+  col_limbs (C07Run.np ps 1) (C07Run.np ps 5) (C07Run.np ps 6) a2 (C07Run.np ps 7) ->
+  run_c07 code ps (a1 :: rest) = run_c07 code ps (a2 :: rest).
+Proof. exact c07_depends_a. Qed.
+Print Assumptions C11_dft_frame_a.
+
+(* svp: the scalar operand is read through limb 0 of its selected column only *)
+Theorem C11_dft_frame_svp : forall code ps a1 a2 rest,
+  In code [7010; 7011; 7012]%Z ->
+  limb_at (C07Run.np ps 1) (C07Run.np ps 5) a1 (C07Run.np ps 7) 0 =
+  limb_at (C07Run.np ps 1) (C07Run.np ps 5) a2 (C07Run.np ps 7) 0 ->
+  run_c07 code ps (a1 :: rest) = run_c07 code ps (a2 :: rest).
+Proof. exact c07_depends_svp. Qed.
+Print Assumptions C11_dft_frame_svp.
+
+(* second operand: the selected b column, and (in-place forms) the prior destination column *)
+Theorem C11_dft_frame_b : forall code ps a b1 b2 rest,
+  In code [7001; 7002; 7003; 7004; 7005; 7006; 7007; 7008; 7009; 7010; 7011; 7012]%Z ->
+  col_limbs (C07Run.np ps 1) (C07Run.np ps 8) (C07Run.np ps 9) b1 (C07Run.np ps 10) =
+  col_limbs (C07Run.np ps 1) (C07Run.np ps 8) (C07Run.np ps 9) b2 (C07Run.np ps 10) ->
+  col_limbs (C07Run.np ps 1) 1 (C07Run.np ps 3) b1 0 = col_limbs (C07Run.np ps 1) 1 (C07Run.np ps 3) b2 0 ->
+  run_c07 code ps (a :: b1 :: rest) = run_c07 code ps (a :: b2 :: rest).
+Proof. exact c07_depends_b. Qed.
+Print Assumptions C11_dft_frame_b.
+
+(* vmp: the limbs of a and of the matrix selected by the largest-valid-sub-shape rule *)
+Theorem C11_dft_vmp_frame : forall code ps vs1 vs2,
+  In code [7020; 7021]%Z ->
+  let n := C07Run.np ps 1 in let rcols := C07Run.np ps 2 in let acols := C07Run.np ps 5 in let asz := C07Run.np ps 6 in
+  let rows := nex ps 0 in let msize := nex ps 1 in
+  let row_max := Nat.min (acols * rows) (acols * asz) in
+  (forall q, q < row_max ->
+     limb_at n acols (C07Run.v vs1 0) (q mod acols) (q / acols) = limb_at n acols (C07Run.v vs2 0) (q mod acols) (q / acols)) ->
+  (forall q c, q < row_max ->
+     limb_at n rcols (skipn (q * (n * rcols * msize)) (C07Run.v vs1 1)) (c mod rcols) (c / rcols) =
+     limb_at n rcols (skipn (q * (n * rcols * msize)) (C07Run.v vs2 1)) (c mod rcols) (c / rcols)) ->
+  run_c07 code ps vs1 = run_c07 code ps vs2.
+Proof. exact c07_vmp_depends. Qed.
+Print Assumptions C11_dft_vmp_frame.
+
+(* every limb j < rsize of the output is produced: rsize * n words (buffers as large as their declared shape) *)
+Theorem C11_dft_output_length : forall code ps vs outs,
+  In code [7001; 7002; 7003; 7004; 7005; 7006; 7007; 7008; 7009; 7010; 7011; 7012]%Z ->
+  c07_fits code ps vs ->
+  run_c07 code ps vs = Some outs ->
+  exists o, outs = [o; okflags] /\ length o = C07Run.np ps 3 * C07Run.np ps 1.
+Proof. exact c07_output_length. Qed.
+Print Assumptions C11_dft_output_length.
+
+Theorem C11_dft_vmp_output_length : forall code ps vs outs,
+  In code [7020; 7021]%Z ->
+  C07Run.np ps 1 * C07Run.np ps 5 * C07Run.np ps 6 <= length (C07Run.v vs 0) ->
+  run_c07 code ps vs = Some outs ->
+  exists o, outs = [o; okflags] /\ length o = C07Run.np ps 2 * (C07Run.np ps 3 * C07Run.np ps 1).
+Proof. exact c07_vmp_output_length. Qed.
+Print Assumptions C11_dft_vmp_output_length.
+
+(* =====================================================================================================
+   E. SOUNDNESS of the executable oracle (Model/C11Run.v)
+   ===================================================================================================== *)
+
+Theorem C11_in_col_same : C11Run.in_col = C11Frame.in_col.
+Proof. exact in_col_same. Qed.
+Print Assumptions C11_in_col_same.
+
+Theorem C11_frame_eq_sound : forall n cols size col (a b : list Z),
+  frame_eq n cols size col 0 a b = true <->
+  (length a = length b /\
+   forall idx, C11Run.in_col n cols size col idx = false -> nth idx a 0%Z = nth idx b 0%Z).
+Proof. exact frame_eq_sound. Qed.
+Print Assumptions C11_frame_eq_sound.
+
+Theorem C11_col_eq_sound : forall n cols size col (a b : list Z),
+  col_eq n cols size col 0 a b = true <->
+  (length a = length b /\
+   forall idx, C11Run.in_col n cols size col idx = true -> nth idx a 0%Z = nth idx b 0%Z).
+Proof. exact col_eq_sound. Qed.
+Print Assumptions C11_col_eq_sound.
+
+(* agreement on the words of the column = equality of the column's limbs: col_eq decides the independence statement *)
+Theorem C11_col_eq_col_limbs : forall n cols size col (a b : list Z),
+  0 < n -> col < cols -> n * cols * size <= length a ->
+  (col_eq n cols size col 0 a b = true <->
+   (length a = length b /\ col_limbs n cols size a col = col_limbs n cols size b col)).
+Proof. exact col_eq_col_limbs. Qed.
+Print Assumptions C11_col_eq_col_limbs.
+
+(* the pair-run model always passes its own oracle: for every C08 / C09 single-destination opcode, any shape with
+   n >= 1, any buffers; vs = res :: rest ++ [res_alt].  Overwriting forms: arbitrary res / res_alt; accumulate and
+   in-place forms (and automorphism): res and res_alt agree on the selected column *)
+Theorem C11_oracle_c08 : forall c ps res alt rest outs,
+  In c [8101; 8102; 8103; 8104; 8105; 8106; 8107; 8108; 8109; 8110; 8201; 8202; 8203; 8204]%Z ->
+  0 < s_n (rshape ps) ->
+  (In c [8101; 8104; 8108; 8201; 8204]%Z \/
+   col_limbs (s_n (rshape ps)) (s_cols (rshape ps)) (s_size (rshape ps)) res (s_col (rshape ps)) =
+   col_limbs (s_n (rshape ps)) (s_cols (rshape ps)) (s_size (rshape ps)) alt (s_col (rshape ps))) ->
+  run_c11 (110000 + c) ps (res :: rest ++ [alt]) = Some outs ->
+  oracle_c11 (110000 + c) ps (res :: rest ++ [alt]) outs = 1%Z.
+Proof. exact c11_oracle_c08. Qed.
+Print Assumptions C11_oracle_c08.
+
+Theorem C11_oracle_c09 : forall c ps res alt rest outs,
+  In c [9001; 9002; 9003; 9004; 9005; 9006; 9007; 9008; 9009; 9010; 9011; 9012; 9013; 9014; 9015; 9016; 9017;
+        9018; 9019; 9020; 9022]%Z ->
+  0 < s_n (shp ps 0) ->
+  (In c [9001; 9003; 9006; 9008; 9010; 9012; 9013; 9014; 9016; 9020; 9022]%Z \/
+   getcol (shp ps 0) res = getcol (shp ps 0) alt) ->
+  run_c11 (110000 + c) ps (res :: rest ++ [alt]) = Some outs ->
+  oracle_c11 (110000 + c) ps (res :: rest ++ [alt]) outs = 1%Z.
+Proof. exact c11_oracle_c09. Qed.
+Print Assumptions C11_oracle_c09.
+
+(* =====================================================================================================
+   Examples: the hypotheses are satisfiable, on concrete small buffers
+   ===================================================================================================== *)
+
+Example C11_in_col_example : C11Frame.in_col 4 3 2 1 (4 * (1 * 3 + 1) + 2) = true /\ C11Frame.in_col 4 3 2 1 (4 * (2 * 3 + 1)) = false /\ C11Frame.in_col 4 3 2 1 3 = false.
 Proof. vm_compute. auto. Qed.
+
+(* n = 2, 2 columns, 2 limbs: write column 1 and read it back; column 0 is untouched *)
+Example C11_ex_read_back :
+  col_limbs 2 2 2 (write_col 2 2 [1; 2; 3; 4; 5; 6; 7; 8]%Z 1 [[10; 11]; [12; 13]]%Z) 1 = [[10; 11]; [12; 13]]%Z /\
+  col_limbs 2 2 2 (write_col 2 2 [1; 2; 3; 4; 5; 6; 7; 8]%Z 1 [[10; 11]; [12; 13]]%Z) 0 = [[1; 2]; [5; 6]]%Z.
+Proof.
+  split.
+  - apply C11_write_col_read; cbn [length]; try lia. repeat constructor.
+  - rewrite (C11_write_col_other_col 2 2 2 1 0 _ _ 2); cbn [length]; try lia. reflexivity.
+Qed.
+
+(* C09 add_into (9001), n = 2, destination with 2 columns / capacity 2 / size 1 / column 1, two garbage fills *)
+Definition ex_ps9 : list Z := [1; 2; 2; 1; 2; 1; 2; 1; 1; 1; 0; 2; 1; 1; 1; 0]%Z.
+Example C11_ex_c09_add :
+  run_c09 9001 ex_ps9 [[91; 92; 93; 94; 95; 96; 97; 98]; [1; 2]; [3; 4]]%Z = Some [[91; 92; 4; 6; 95; 96; 97; 98]]%Z /\
+  run_c09 9001 ex_ps9 [[-1; -2; -3; -4; -5; -6; -7; -8]; [1; 2]; [3; 4]]%Z = Some [[-1; -2; 4; 6; -5; -6; -7; -8]]%Z.
+Proof. vm_compute. auto. Qed.
+Example C11_ex_c09_add_indep : forall r1 r2,
+  run_c09 9001 ex_ps9 [[91; 92; 93; 94; 95; 96; 97; 98]; [1; 2]; [3; 4]]%Z = Some [r1] ->
+  run_c09 9001 ex_ps9 [[-1; -2; -3; -4; -5; -6; -7; -8]; [1; 2]; [3; 4]]%Z = Some [r2] ->
+  getcol (shp ex_ps9 0) r1 = getcol (shp ex_ps9 0) r2.
+Proof. intros r1 r2. apply C11_c09_indep_overwrite. cbn [In]. auto. Qed.
+
+(* split_ring into two parts of degree 1 *)
+Example C11_ex_c09_split :
+  run_c09 9021 [1; 1; 2; 1; 2; 1; 2; 1; 1; 1; 0; 0; 0; 0; 0; 0]%Z [[1; 2]; [91; 92; 93; 94]; [81; 82; 83; 84]]%Z
+  = Some [[91; 1; 93; 94]; [81; 2; 83; 84]]%Z.
+Proof. vm_compute. reflexivity. Qed.
+
+(* C08 normalize (8101), base 2^10 -> 2^10, n = 2: 1000 = 1*2^10 - 24 ; two garbage fills *)
+Definition ex_ps8 : list Z := [1; 2; 2; 1; 2; 1; 1; 1; 1; 0; 10; 10; 0]%Z.
+Example C11_ex_c08_normalize :
+  run_c08_vec 8101 ex_ps8 [[91; 92; 93; 94; 95; 96; 97; 98]; [5; 1000]]%Z = Some [[91; 92; 5; -24; 95; 96; 97; 98]]%Z /\
+  run_c08_vec 8101 ex_ps8 [[-1; -2; -3; -4; -5; -6; -7; -8]; [5; 1000]]%Z = Some [[-1; -2; 5; -24; -5; -6; -7; -8]]%Z.
+Proof. vm_compute. auto. Qed.
+Example C11_ex_c08_normalize_indep : forall r1 r2,
+  run_c08_vec 8101 ex_ps8 [[91; 92; 93; 94; 95; 96; 97; 98]; [5; 1000]]%Z = Some [r1] ->
+  run_c08_vec 8101 ex_ps8 [[-1; -2; -3; -4; -5; -6; -7; -8]; [5; 1000]]%Z = Some [r2] ->
+  col_limbs 2 2 1 r1 1 = col_limbs 2 2 1 r2 1.
+Proof. intros r1 r2. apply (C11_c08_indep_overwrite 8101 ex_ps8). cbn [In]. auto. Qed.
+
+(* C07 dft_add (7003): two a buffers that agree on column 1 (limb 0) only *)
+Definition ex_ps7 : list Z := [1; 2; 1; 1; 0; 2; 1; 1; 1; 1; 0]%Z.
+Example C11_ex_dft_add :
+  run_c07 7003 ex_ps7 [[9; 9; 1; 2; 7; 7; 7; 7]; [10; 20]]%Z = run_c07 7003 ex_ps7 [[0; 0; 1; 2; 5; 5; 5; 5]; [10; 20]]%Z /\
+  run_c07 7003 ex_ps7 [[9; 9; 1; 2; 7; 7; 7; 7]; [10; 20]]%Z = Some [[11; 22]; [1; 1; 1]]%Z.
+Proof.
+  split; [|vm_compute; reflexivity].
+  apply C11_dft_frame_a; [cbn [In]; auto|]. vm_compute. reflexivity.
+Qed.
+
+(* the oracle on the buffers of C11_ex_c09_add *)
+Example C11_ex_oracle :
+  frame_eq 2 2 1 1 0 [91; 92; 93; 94; 95; 96; 97; 98]%Z [91; 92; 4; 6; 95; 96; 97; 98]%Z = true /\
+  col_eq 2 2 1 1 0 [91; 92; 4; 6; 95; 96; 97; 98]%Z [-1; -2; 4; 6; -5; -6; -7; -8]%Z = true /\
+  frame_eq 2 2 1 1 0 [91; 92; 93; 94; 95; 96; 97; 98]%Z [91; 92; 4; 6; 95; 96; 97; 0]%Z = false.
+Proof. vm_compute. auto. Qed.
+
+(* a whole pair record (opcode 110000 + 9001): the model's two outputs and the oracle's verdict *)
+Example C11_ex_pair_record :
+  run_c11 119001 ex_ps9 [[91; 92; 93; 94; 95; 96; 97; 98]; [1; 2]; [3; 4]; [-1; -2; -3; -4; -5; -6; -7; -8]]%Z
+  = Some [[91; 92; 4; 6; 95; 96; 97; 98]; [-1; -2; 4; 6; -5; -6; -7; -8]]%Z /\
+  oracle_c11 119001 ex_ps9 [[91; 92; 93; 94; 95; 96; 97; 98]; [1; 2]; [3; 4]; [-1; -2; -3; -4; -5; -6; -7; -8]]%Z
+    [[91; 92; 4; 6; 95; 96; 97; 98]; [-1; -2; 4; 6; -5; -6; -7; -8]]%Z = 1%Z.
+Proof.
+  split; [vm_compute; reflexivity|].
+  apply (C11_oracle_c09 9001 ex_ps9 [91; 92; 93; 94; 95; 96; 97; 98]%Z [-1; -2; -3; -4; -5; -6; -7; -8]%Z [[1; 2]; [3; 4]]%Z).
+  - cbn [In]. auto.
+  - vm_compute. lia.
+  - left. cbn [In]. auto 12.
+  - vm_compute. reflexivity.
+Qed.
